@@ -129,6 +129,9 @@ def _node(st, x, path, flags):
     if isinstance(x, dict) and set(x) == {'opt'}:
         b = z3.Bool('null_' + path); flags[path] = b
         return ('opt', b, _node(st, x['opt'], path + '.v', flags))
+    if isinstance(x, dict) and set(x) == {'any'}:
+        sel = z3.BitVec('type_' + path, 8); flags[path] = sel
+        return ('any', sel, [_node(st, e, '%s|%d' % (path, i), flags) for i, e in enumerate(x['any'])])
     if x is None: return ('null',)
     if isinstance(x, bool): return ('bool', x)
     if isinstance(x, (int, float)): return ('num', x)
@@ -139,6 +142,8 @@ def _node(st, x, path, flags):
 
 
 def _conc_node(mdl, n):
+    if n[0] == 'any':
+        k = mval(mdl, n[1]); return _conc_node(mdl, n[2][k if k < len(n[2]) - 1 else len(n[2]) - 1])
     if n[0] == 'opt': return None if mval(mdl, n[1]) else _conc_node(mdl, n[2])
     if n[0] == 'null': return None
     if n[0] in ('bool', 'num', 'str'): return n[1]
